@@ -514,7 +514,7 @@ def run(ck):
                                'harness/h_nlread.cc recording handler + error-class mapping; checks/c02.py oracle and comparison']
 
 
-EXPECT_THEOREMS = 9
+EXPECT_THEOREMS = 11
 
 
 def replay(ck, path):
